@@ -32,7 +32,7 @@ EXTENDS DataModel, Json
 CONSTANTS Programs       \* set of program records (families in CodegenMC.tla)
 
 A == INSTANCE Alloc WITH Prefixes <- {}, AddNames <- {}, Pkgs <- {}, DstPath <- "", MaxHist <- 0,
-       visible <- {}, imp <- << >>, inpkg <- FALSE, last <- << >>, hist <- << >>
+       visible <- {}, imp <- << >>, inpkg <- FALSE, last <- << >>, hist <- << >>, pv <- << >>, resolved <- FALSE
 
 VARIABLES c,      \* the case: [prog, tmpl, inpkg]
           ms,     \* methods of the completed interface in go/types order
@@ -233,7 +233,7 @@ Types(sc, role) == IF role = "p" THEN [k \in 1..sc.np |-> sc.vars[k].t]
 TypeUses(ts) == UNION {BareIdents(ts[i], c.inpkg) \cup {Qual(imp, p) : p \in RefPkgs(ts[i])} : i \in 1..Len(ts)} \ {""}
 
 \* var.go nillable()
-NamedNillable(t) == t.n \in {"I", "LI", "GI", "LGI", "RW", "LG2", "TI", "Reader", "Writer", "ReadWriter", "Context", "Stringer", "Locker", "LS"}
+NamedNillable(t) == t.n \in {"I", "LI", "GI", "LGI", "RW", "LG2", "TI", "Reader", "Writer", "ReadWriter", "Context", "Stringer", "Locker", "LS", "EI", "LEI"}
 Nillable(t) == CASE t.k \in {"ptr", "array", "map", "iface", "func", "chan", "slice", "tp"} -> TRUE
                  [] t.k = "basic" -> t.n \in {"error", "any"}
                  [] t.k \in {"named", "inst"} -> NamedNillable(t)
@@ -416,6 +416,18 @@ NamesDistinct(m) == LET ns == [i \in 1..(Len(m.ps) + Len(m.rs)) |-> IF i <= Len(
 WellFormedProgram == /\ \A n \in DOMAIN Prog.decls : WellFormedMethodSet(TargetMethodSet(Prog.decls, n))
                      /\ Prog.targets[Len(Prog.targets)] = Prog.target
                      /\ \A d \in Range(Prog.decls) : \A i \in 1..Len(d.ms) : NamesDistinct(d.ms[i])
+TpConstraintOf(prog, t) ==
+  LET tl == prog.decls[prog.target].tps
+  IN IF t.k = "tp" /\ \E i \in 1..Len(tl) : tl[i].n = t.n THEN tl[CHOOSE i \in 1..Len(tl) : tl[i].n = t.n].c ELSE B("any")
+VariadicsOf(prog) ==
+  LET mths == MethodsOf(prog, prog.target)
+      idx == {i \in 1..Len(mths) : mths[i].va}
+      rec(i) == LET e == mths[i].ps[Len(mths[i].ps)].t
+                IN [n |-> mths[i].n, before |-> Len(mths[i].ps) - 1, elem |-> Show(e),
+                    class |-> VariadicElemClass(e, TpConstraintOf(prog, e)),
+                    usable_as_empty_iface_slice |-> SliceUsableAsEmptyIfaceSlice(e),
+                    underlying_empty_iface |-> UnderlyingIsEmptyIface(e)]
+  IN {rec(i) : i \in idx}
 Emit ==
   /\ (pc = "methods" /\ j = 1 /\ ti = 1 /\ c.tmpl = "testify" /\ c.inpkg) =>
         PrintT(<<"PROG", ToJson([prog |-> Prog, methods |-> MethodsOf(Prog, Prog.target), wellformed |-> WellFormedProgram,
@@ -429,6 +441,9 @@ Emit ==
                                  \* C02, several interfaces mocked into one file: method set / type arguments of every declaration
                                  sets |-> [n \in DOMAIN Prog.decls |-> SortByRank(TargetMethodSet(Prog.decls, n))],
                                  dms |-> [n \in DOMAIN Prog.decls |-> ExpData(MethodsOf(Prog, n), Prog.decls[n].tps)],   \* C14, per interface
-                                 alltargs |-> [n \in DOMAIN Prog.decls |-> TargTuples(Prog.decls[n].tps)]])>>)
+                                 alltargs |-> [n \in DOMAIN Prog.decls |-> TargTuples(Prog.decls[n].tps)],
+                                 \* CONTRACT (Sig.tla): per variadic method of the target, the class of its element type and whether
+                                 \* the variadic slice may be used as a []interface{} as it is (identity with the empty interface)
+                                 variadics |-> VariadicsOf(Prog)])>>)
   /\ (pc = "done") => PrintT(<<"PRED", ToJson(Pred)>>)
 =============================================================================
